@@ -4129,7 +4129,10 @@ func (p *Posix) CopyObject(ctx context.Context, input s3response.CopyObjectInput
 					return nil, fmt.Errorf("initialize hash reader: %w", err)
 				}
 
-				_, err = hashReader.Read(nil)
+				// read the whole object through the hash reader (a Read
+				// with an empty buffer reads nothing: the stored
+				// checksum was the one of an empty input)
+				_, err = io.Copy(io.Discard, hashReader)
 				if err != nil {
 					return nil, fmt.Errorf("read err: %w", err)
 				}
